@@ -561,7 +561,7 @@ func harmlessB64Rewrite(scope map[*ssa.Function]bool, via string) bool {
 // state>]&SigAlg=<algorithm> - the values in these positions, and the RelayState part exactly when a RelayState was
 // received (HTTP-Redirect binding, 3.4.4.1). Any other shape makes every correct signature fail.
 func (cx *Ctx) checkRedirectOctetsShape(r *Report) {
-	w, fx := cx.W, cx.Fx
+	w := cx.W
 	vr := w.Func("serviceprovider.(*ServiceProvider).ValidateRedirectSignature")
 	if vr == nil {
 		r.Fail("R-VFG", "ValidateRedirectSignature:shape", "", "anchor not found")
@@ -583,82 +583,86 @@ func (cx *Ctx) checkRedirectOctetsShape(r *Report) {
 	}
 	for _, ci := range cands {
 		call := ci.(*ssa.Convert)
-		parts := mergeLits(cx.strParts(call.X))
-		if len(parts) == 0 || !parts[0].IsLit || !strings.HasPrefix(parts[0].Lit, "SAMLRequest=") {
-			continue
-		}
-		n++
-		format := ""
-		for _, p := range parts {
-			if p.IsLit {
-				format += p.Lit
-			}
-		}
-		var desc []string
-		for _, p := range mergeLits(parts) {
-			if p.IsLit {
-				desc = append(desc, p.Lit)
+		// the converted string may be chosen among several (a local assigned in both arms of a test): each
+		// alternative is judged with the atoms holding where it is chosen
+		for _, alt := range cx.strAlts(call.X, ci) {
+			parts := mergeLits(cx.strParts(alt.Val))
+			if len(parts) == 0 || !parts[0].IsLit || !strings.HasPrefix(parts[0].Lit, "SAMLRequest=") {
 				continue
 			}
-			src := "?"
-			ls := lvf.Deep(lvf.Labels(p.Val)).leaves()
-			var ps []string
-			for _, l := range ls {
-				if strings.HasPrefix(l, "param:") {
-					ps = append(ps, l)
+			n++
+			format := ""
+			for _, p := range parts {
+				if p.IsLit {
+					format += p.Lit
 				}
 			}
-			if len(ps) == 1 {
-				for i := 1; i <= 4; i++ {
-					if ps[0] == par(i) {
-						src = fmt.Sprintf("<#%d>", i)
+			var desc []string
+			for _, p := range mergeLits(parts) {
+				if p.IsLit {
+					desc = append(desc, p.Lit)
+					continue
+				}
+				src := "?"
+				ls := lvf.Deep(lvf.Labels(p.Val)).leaves()
+				var ps []string
+				for _, l := range ls {
+					if strings.HasPrefix(l, "param:") {
+						ps = append(ps, l)
+					}
+				}
+				if len(ps) == 1 {
+					for i := 1; i <= 4; i++ {
+						if ps[0] == par(i) {
+							src = fmt.Sprintf("<#%d>", i)
+						}
+					}
+				}
+				desc = append(desc, src)
+			}
+			got := strings.Join(desc, "")
+			hasRS := strings.Contains(format, "RelayState=")
+			want := "SAMLRequest=<#1>&SigAlg=<#3>"
+			if hasRS {
+				want = "SAMLRequest=<#1>&RelayState=<#2>&SigAlg=<#3>"
+			}
+			bad := ""
+			if got != want {
+				bad = "the verified string is " + got + ", the binding prescribes " + want
+			}
+			// the RelayState part exactly when one was received
+			present, absent := false, false
+			for _, a := range alt.Atoms {
+				if a.Op != "EMPTY" {
+					continue
+				}
+				subj := emptySubject(a)
+				if subj == nil {
+					continue
+				}
+				for _, l := range lvf.Deep(lvf.Labels(subj)).leaves() {
+					if l == par(2) {
+						if a.Neg {
+							present = true
+						} else {
+							absent = true
+						}
 					}
 				}
 			}
-			desc = append(desc, src)
-		}
-		got := strings.Join(desc, "")
-		hasRS := strings.Contains(format, "RelayState=")
-		want := "SAMLRequest=<#1>&SigAlg=<#3>"
-		if hasRS {
-			want = "SAMLRequest=<#1>&RelayState=<#2>&SigAlg=<#3>"
-		}
-		bad := ""
-		if got != want {
-			bad = "the verified string is " + got + ", the binding prescribes " + want
-		}
-		// the RelayState part exactly when one was received
-		present, absent := false, false
-		for _, a := range fx.AtomsAt(ci) {
-			if a.Op != "EMPTY" {
-				continue
+			if bad == "" && hasRS && !present {
+				bad = "the RelayState part is included on a path that has not found a RelayState: requests without RelayState fail verification"
 			}
-			subj := emptySubject(a)
-			if subj == nil {
-				continue
+			if bad == "" && !hasRS && !absent {
+				bad = "the RelayState part is left out on a path that has not found the RelayState empty: requests with RelayState fail verification"
 			}
-			for _, l := range lvf.Deep(lvf.Labels(subj)).leaves() {
-				if l == par(2) {
-					if a.Neg {
-						present = true
-					} else {
-						absent = true
-					}
-				}
+			if hasRS {
+				withRS++
+			} else {
+				withoutRS++
 			}
+			r.Check(bad == "", "R-VFG", "ValidateRedirectSignature:shape@"+w.InstrPos(call)+alt.Tag, w.InstrPos(call), want, bad)
 		}
-		if bad == "" && hasRS && !present {
-			bad = "the RelayState part is included on a path that has not found a RelayState: requests without RelayState fail verification"
-		}
-		if bad == "" && !hasRS && !absent {
-			bad = "the RelayState part is left out on a path that has not found the RelayState empty: requests with RelayState fail verification"
-		}
-		if hasRS {
-			withRS++
-		} else {
-			withoutRS++
-		}
-		r.Check(bad == "", "R-VFG", "ValidateRedirectSignature:shape@"+w.InstrPos(call), w.InstrPos(call), want, bad)
 	}
 	r.Check(withRS >= 1 && withoutRS >= 1, "R-VFG", "ValidateRedirectSignature:shape#", w.FnPos(vr), fmt.Sprintf("%d templates", n), "the verified string is not built in the two prescribed shapes (with and without RelayState)")
 }
